@@ -1,0 +1,35 @@
+//go:build verif
+
+package interpreter
+
+// Contracts for govc (contract-based deductive verification). Comment-only: this file
+// contributes no declarations and is compiled only with -tags verif.
+
+// ---- provider allow-list (C12) -------------------------------------------------------
+
+//@ spec func allowed(n string) bool = has(allowedMethods, n) && allowedMethods[n]
+//@ spec func allowListWF() bool = allowedMethods != nil && forall(k, string, has(allowedMethods, k) ==> allowedMethods[k])
+
+// canonicalMethodName resolves a spelling to an allow-listed name that differs from it at most by case.
+//@ func canonicalMethodName
+//@   requires allowListWF()
+//@   modifies nothing
+//@   ensures result1 ==> allowed(result) && libcall(strings.EqualFold, result, methodName)
+//@   ensures !result1 ==> result == "" && !allowed(methodName)
+//@   ensures !result1 ==> forall(k, string, allowed(k) ==> !libcall(strings.EqualFold, k, methodName))
+//@   loop 1 invariant forall(k, string, visited(1, k) ==> !libcall(strings.EqualFold, k, methodName))
+
+// CallMethod: the only reflective method lookup uses an allow-listed name, and reflect.Value.Call
+// is reached only with an argument vector that cannot make it panic.
+//@ func CallMethod
+//@   requires allowListWF()
+//@   callpre (reflect.Value).MethodByName allowed(arg1) && libcall(strings.EqualFold, arg1, methodName)
+//@   callpre (reflect.Value).Method false
+//@   ensures !old(exists(k, string, allowed(k) && libcall(strings.EqualFold, k, methodName))) ==> err != nil
+//@   loop 1 invariant 0 <= rangeidx && rangeidx <= len(args) && len(methodArgs) == len(args) && fresh(methodArgs)
+//@   loop 1 invariant forall(j, 0, rangeidx, rfValid(methodArgs[j]) && rfAssignable(rfType(methodArgs[j]), rfParam(methodType, j)))
+
+//@ func HasMethod
+//@   requires allowListWF()
+//@   callpre (reflect.Value).Call false
+//@   callpre (reflect.Value).Method false
